@@ -1,8 +1,9 @@
 (* C10 — PASTE is transparent: a macro call equals its body written in place.
-   Statements only; proofs in Proofs/C10Proofs.v.  PARTIAL: the equivalence
-   expand (tree ts) = tree (inline ts) is not a theorem yet; it is checked on expanded forests
-   (implementation vs model) and metamorphically on catalogs (macro form vs inlined form). *)
-From JS Require Import Base Bytes Scanner Directive Core Expand C10Proofs.
+   Statements only; proofs in Proofs/C10Proofs.v and Proofs/PasteInline.v.  PARTIAL: the theorems
+   are about the model of the expansion phase (tied to the code by comparing expanded forests
+   with the implementation on every run); that the catalog of the macro form equals the catalog
+   of the textually inlined document is additionally checked metamorphically on the implementation. *)
+From JS Require Import Base Bytes Scanner Directive Core Expand C10Proofs PasteInline.
 From JS Require DirectiveTables.
 Open Scope Z_scope.
 
@@ -13,6 +14,20 @@ Theorem C10_macros_are_removed :
     collect_macro roots [] [] = COk (roots', ms') ->
     roots' = List.filter (fun d => negb (N.eqb (d_kind d) DirectiveTables.dir_Macro)) roots.
 Proof. intros roots roots' ms' H. exact (collect_macro_keeps_order roots [] [] roots' ms' H). Qed.
+
+(* PASTE is transparent: for every forest, macro table and fuel, whenever the MACRO/PASTE phase
+   succeeds, the expanded forest is exactly what the same phase produces from the PASTE-free
+   document in which every PASTE is replaced by the children of the named MACRO, recursively
+   (used many times, defined after use, nested: no restriction); that document contains no
+   PASTE, and expanding it registers no ENUM rule of its own *)
+Theorem C10_expansion_is_inlining :
+  forall enum_check fuel roots ex,
+    compile_macros enum_check fuel roots = XOk ex ->
+    let doc := flat_map (inline (ex_macros ex) fuel) (ex_roots ex) in
+    forallb no_paste doc = true /\
+    exists ys, expand_list enum_check (ex_macros ex) fuel (mkX [] None []) doc = COk ys /\
+               x_forest ys = ex_forest ex /\ x_enums ys = [].
+Proof. exact expanded_forest_is_the_inlined_document. Qed.
 
 (* a PASTE of an undefined macro is an error located at that PASTE *)
 Theorem C10_undefined_macro_is_error :
@@ -41,6 +56,7 @@ Theorem C10_longer_cycles_are_rejected :
 Proof. exact longer_cycles_are_rejected. Qed.
 
 Print Assumptions C10_macros_are_removed.
+Print Assumptions C10_expansion_is_inlining.
 Print Assumptions C10_undefined_macro_is_error.
 Print Assumptions C10_recursion_check_sound.
 Print Assumptions C10_longer_cycles_are_rejected.
